@@ -2,6 +2,8 @@ package seqio
 
 // C16 — ORIGIN block layout: (a) length arithmetic for every length.
 
+import "github.com/go-pars/pars"
+
 //verif:harness prop=C16 quick=1 thorough=1 nomerge=1
 //verif:bounds toOriginLength/fromOriginLength for every n in [0, 4*10^18] (one symbolic n; no loop)
 func VH_C16_length_arith() {
@@ -18,4 +20,116 @@ func VH_C16_length_arith() {
 	vAssume(n < m)
 	vAssert("strictly-monotone", b < toOriginLength(m))
 	vObserve("b", b)
+}
+
+// ---- (b) layout ------------------------------------------------------------------
+
+// vExpectedOrigin lays the block out independently of the code under test.
+func vExpectedOrigin(p []byte) []byte {
+	var out []byte
+	for i := 0; i < len(p); i += 60 {
+		idx := i + 1
+		var digs []byte
+		for idx > 0 {
+			digs = append([]byte{byte('0' + idx%10)}, digs...)
+			idx /= 10
+		}
+		for k := len(digs); k < 9; k++ {
+			out = append(out, ' ')
+		}
+		out = append(out, digs...)
+		for j := i; j < i+60 && j < len(p); j++ {
+			if (j-i)%10 == 0 {
+				out = append(out, ' ')
+			}
+			out = append(out, p[j])
+		}
+		out = append(out, '\n')
+	}
+	return out
+}
+
+func vSameBytes16(a, b []byte) bool {
+	if len(a) != len(b) {
+		return false
+	}
+	ok := true
+	for i := range a {
+		ok = vAnd(ok, a[i] == b[i])
+	}
+	return ok
+}
+
+//verif:harness prop=C16 quick=8 thorough=16 merge=concrete
+//verif:bounds (b) layout for every length 0..130 (quick) / 0..250 (thorough) with symbolic printable residues: NewOrigin buffer == independent layout, length == toOriginLength, Bytes()==input, Len() without decoding, String() idempotent
+func VH_C16_layout() {
+	ns := 8 + 8*vTier()
+	max := 130 + 120*vTier()
+	s := vShard(ns)
+	cnt := (max + 1 - s + ns - 1) / ns
+	n := s + ns*vChoice("n", cnt)
+	p := vBytesIn("p", n, 33, 126)
+	o := NewOrigin(p)
+	vCover("laid-out")
+	vAssert("buffer-length", len(o.Buffer) == toOriginLength(n))
+	vAssert("layout", vSameBytes16(o.Buffer, vExpectedOrigin(p)))
+	vAssert("len-without-decoding", vAnd(o.Len() == n, !o.Parsed))
+	s1 := o.String()
+	q := o.Bytes()
+	vAssert("bytes-roundtrip", vSameBytes16(q, p))
+	vAssert("len-after-decoding", o.Len() == n)
+	vAssert("string-idempotent", o.String() == s1)
+	vAssert("arg-unchanged", vSameBytes16(p, q)) // p itself still reads the same
+	vObserve("n", n)
+	vObserve("buflen", len(s1))
+}
+
+// ---- (c) fast validation path vs slow line-by-line path ------------------------------
+
+func vIsBlank(c byte) bool { return vOr(c == ' ', vOr(c == '\t', vOr(c == '\r', vOr(c == '\v', c == '\f')))) }
+
+//verif:harness prop=C16 quick=8 thorough=16 merge=concrete timeout=1200
+//verif:bounds (c) declared length n in 0..7 (quick) / 0..15 (thorough); the ORIGIN block is toOriginLength(n)+k fully symbolic bytes (k in 0..1), every byte ranges over all 256 values; validateOrigin and slowGenBankOriginParser run on the same block
+func VH_C16_fast_vs_slow() {
+	ns := 8 + 8*vTier()
+	n := vShard(ns)
+	k := vChoice("k", 2)
+	m := toOriginLength(n)
+	blk := vBytes("b", m+k)
+	// fast path on the first m bytes (the reader requests exactly m bytes)
+	fastErr := validateOrigin(blk[:m], n, pars.Position{})
+	fastOK := fastErr == nil
+	// slow path on the whole block
+	st := pars.FromBytes(append([]byte{}, blk...))
+	var res pars.Result
+	var slowErr error
+	p := vPanics(func() { slowErr = slowGenBankOriginParser(n)(st, &res) })
+	vAssert("slow-no-panic", !p)
+	if p {
+		return
+	}
+	slowOK := slowErr == nil
+	vCover("compared")
+	if fastOK {
+		vCover("fast-accepts")
+		// canonical block: the slow path must accept it too and give the same residues
+		vAssert("slow-accepts-canonical", slowOK)
+		if slowOK {
+			a := (&Origin{append([]byte{}, blk[:m]...), false}).Bytes()
+			b := (&Origin{res.Token, false}).Bytes()
+			vAssert("same-residues", vSameBytes16(a, b))
+		}
+	}
+	if slowOK && !fastOK {
+		vCover("slow-only")
+		// the slow path is more lenient only about line ends / trailing blanks:
+		// its output is a canonical block, and that block validates
+		vAssert("slow-output-canonical", validateOrigin(res.Token, n, pars.Position{}) == nil)
+		vAssert("slow-output-length", len(res.Token) == m)
+	}
+	if slowOK {
+		got := (&Origin{res.Token, false}).Bytes()
+		vAssert("slow-residue-count", len(got) == n)
+	}
+	vObserve("n", n)
 }
